@@ -614,6 +614,37 @@ func ruleGRDprogress(w *World, r *Report) {
 				sepParam = p
 			}
 		}
+		// a suffix of the function's own list: the parameter, a re-slice [k:] of a suffix, or a loop variable that only ever
+		// holds suffixes (the tail call "try the next separator" written as a loop that advances the list)
+		var isSuffix func(v ssa.Value, seen map[ssa.Value]bool) bool
+		isSuffix = func(v ssa.Value, seen map[ssa.Value]bool) bool {
+			if sepParam == nil || seen[v] {
+				return sepParam != nil
+			}
+			seen[v] = true
+			switch x := v.(type) {
+			case *ssa.Parameter:
+				return x == sepParam
+			case *ssa.Slice:
+				if x.High != nil || x.Max != nil {
+					return false
+				}
+				if x.Low != nil {
+					if lo, ok := constInt(x.Low); !ok || lo < 0 {
+						return false
+					}
+				}
+				return isSuffix(x.X, seen)
+			case *ssa.Phi:
+				for _, e := range x.Edges {
+					if !isSuffix(e, seen) {
+						return false
+					}
+				}
+				return true
+			}
+			return false
+		}
 		for _, b := range fn.Blocks {
 			for _, in := range b.Instrs {
 				c, ok := in.(*ssa.Call)
@@ -623,7 +654,7 @@ func ruleGRDprogress(w *World, r *Report) {
 				n++
 				okS := false
 				for _, a := range c.Call.Args {
-					if sl, ok := a.(*ssa.Slice); ok && sepParam != nil && sl.X == ssa.Value(sepParam) && sl.High == nil {
+					if sl, ok := a.(*ssa.Slice); ok && sepParam != nil && sl.High == nil && isSuffix(sl.X, map[ssa.Value]bool{}) {
 						if lo, ok := constInt(sl.Low); ok && lo >= 1 {
 							okS = true
 						}
@@ -637,8 +668,17 @@ func ruleGRDprogress(w *World, r *Report) {
 		for _, b := range fn.Blocks {
 			for _, in := range b.Instrs {
 				bo, ok := in.(*ssa.BinOp)
-				if !ok || sepParam == nil || !isLenOfValue(bo.X, sepParam) {
+				if !ok || sepParam == nil {
 					continue
+				}
+				if !isLenOfValue(bo.X, sepParam) {
+					lc, isCall := bo.X.(*ssa.Call)
+					if !isCall {
+						continue
+					}
+					if _, isLen := isBuiltinCall(lc, "len"); !isLen || len(lc.Call.Args) != 1 || !isSuffix(lc.Call.Args[0], map[ssa.Value]bool{}) {
+						continue
+					}
 				}
 				if c, ok := constInt(bo.Y); ok && c == 0 && bo.Op == token.EQL {
 					t, _ := condEdges(bo)
